@@ -43,6 +43,8 @@ def _work(job):
 def run_units(units, use_cvc5=True, procs=None):
     jobs = [(q, rc, use_cvc5) for (q, rc) in units]
     procs = procs or min(16, max(1, len(jobs)))
+    ncpu = int(os.environ.get("PYVC_CPUS", "16"))
+    os.environ.setdefault("PYVC_OB_PROCS", str(max(1, min(8, ncpu // max(1, min(len(jobs), ncpu))))))
     if procs == 1 or len(jobs) == 1:
         _init()
         return [_work(j) for j in jobs]
